@@ -15,11 +15,11 @@ def main():
     try:
         for prop in sorted(os.listdir(OUT)):
             if only and prop not in only: continue
-            for i in (1, 2, 3, 4, 5, 6, 7, 8, 9, 10):
+            for i in range(1, 41):
                 diff = f"{OUT}/{prop}/mutant_{i}.diff"; demo = f"{OUT}/{prop}/demo_{i}.py"; meta = f"{OUT}/{prop}/meta_{i}.json"
                 if not os.path.exists(diff): continue
                 dest = f"{SEEDED}/{prop}_{i}"
-                if os.path.exists(dest) and not only: continue
+                if os.path.exists(dest): continue
                 res = {"applies": False}
                 sh("git checkout -q -- . && git clean -fdq", cwd=WT)
                 rc0, o0 = sh(f"/venv/bin/python {demo}", cwd=WT, timeout=300)
